@@ -116,3 +116,34 @@ Fixpoint prun (ma_reg ma_op : Z) (q_reg q_op : Z) (st : pm) (h : list pevent)
     let '(st', r, rep) := pstep ma_reg ma_op st e in
     (r, if rep then Some (reports st' q_reg q_op) else None) :: prun ma_reg ma_op q_reg q_op st' h'
   end.
+
+(* ---- second run function: dynamic report subscriptions (several priorities per group) ----
+   Used by the `bursts` correspondence stream, where events are injected back to back and the
+   order in which the actor's handlers actually ran is recorded and replayed. *)
+Inductive pevent2 :=
+| PE (e : pevent)
+| PSub (is_op : bool) (q : Z).      (* bounds subscription for priority q (no-op if already there) *)
+
+Record psubs := mkSubs { s_reg : list Z; s_op : list Z }.
+
+Definition add_sub (sb : psubs) (is_op : bool) (q : Z) : psubs :=
+  if is_op then (if existsb (Z.eqb q) (s_op sb) then sb else mkSubs (s_reg sb) (s_op sb ++ [q]))
+  else (if existsb (Z.eqb q) (s_reg sb) then sb else mkSubs (s_reg sb ++ [q]) (s_op sb)).
+
+Definition rep_line := (Z * option Z * option (Z * Z))%type.   (* priority, target, bounds *)
+
+Definition reports2 (st : pm) (sb : psubs) : list rep_line * list rep_line :=
+  (map (fun q => (q, g_target (pm_reg st),
+                  get_status_bounds (shifted (pm_sys st) (g_target (pm_op st))) (g_bucket (pm_reg st)) q)) (s_reg sb),
+   map (fun q => (q, g_target (pm_op st),
+                  get_status_bounds (pm_sys st) (g_bucket (pm_op st)) q)) (s_op sb)).
+
+Fixpoint prun2 (ma_reg ma_op : Z) (sb : psubs) (st : pm) (h : list pevent2)
+  : list (option Z * option (list rep_line * list rep_line)) :=
+  match h with
+  | [] => []
+  | PSub is_op q :: h' => (None, None) :: prun2 ma_reg ma_op (add_sub sb is_op q) st h'
+  | PE e :: h' =>
+    let '(st', r, rep) := pstep ma_reg ma_op st e in
+    (r, if rep then Some (reports2 st' sb) else None) :: prun2 ma_reg ma_op sb st' h'
+  end.
